@@ -236,6 +236,18 @@ func (b *bench) setStep(s string) {
 	b.stepMu.Unlock()
 }
 
+func (b *bench) setAction(a string) {
+	b.stepMu.Lock()
+	b.action = a
+	b.stepMu.Unlock()
+}
+
+func (b *bench) act() string {
+	b.stepMu.Lock()
+	defer b.stepMu.Unlock()
+	return b.action
+}
+
 func (b *bench) curStep() string {
 	b.stepMu.Lock()
 	defer b.stepMu.Unlock()
@@ -294,7 +306,7 @@ func panicClass(v string) string {
 }
 
 func (b *bench) describe() map[string]interface{} {
-	m := map[string]interface{}{"scenario": b.scenario, "action": b.action, "link": b.lk.Name(), "step": b.curStep(),
+	m := map[string]interface{}{"scenario": b.scenario, "action": b.act(), "link": b.lk.Name(), "step": b.curStep(),
 		"reported": b.rep.list(), "peer_log": b.peer.logSummary(40)}
 	if b.extra != nil {
 		m["case"] = b.extra()
@@ -538,7 +550,7 @@ func (b *bench) postMortem() {
 		b.rec.Count("writes_cut_inside_frame", int64(nt))
 		if viol != "" {
 			b.violate("C09/bytes-after-torn-frame/"+sl.Name(), viol, "",
-				map[string]interface{}{"scenario": b.scenario, "action": b.action, "wire": common.Hex(wire), "link": sl.Name(), "deadlines": sl.deadlines})
+				map[string]interface{}{"scenario": b.scenario, "action": b.act(), "wire": common.Hex(wire), "link": sl.Name(), "deadlines": sl.deadlines})
 		}
 	}
 }
@@ -684,7 +696,7 @@ func classifyDeadlock(b *bench, rep *common.DeadlockReport, prop string) (sig, w
 	}
 	names := b.ops.names()
 	what = fmt.Sprintf("system quiescent with pending operations %v (scenario %s, action %s, link %s); parked: %s",
-		names, b.scenario, b.action, b.lk.Name(), rep.Signature)
+		names, b.scenario, b.act(), b.lk.Name(), rep.Signature)
 	if sl, ok := b.lk.(*streamLink); ok {
 		wire, torn, _ := sl.wireCopy()
 		if viol, _ := checkTornWrites(wire, torn, sl.rwc.packed); viol != "" {
@@ -712,30 +724,30 @@ func classifyDeadlock(b *bench, rep *common.DeadlockReport, prop string) (sig, w
 		// legitimately be holding either lock.
 		st := b.snapshot()
 		if !st.Locked {
-			return prop + "/mutex-leaked/" + scenarioClass(b.scenario) + "/" + b.action, "Conn.mu is held although no Conn method is executing (step " + b.curStep() + ")"
+			return prop + "/mutex-leaked/" + scenarioClass(b.scenario) + "/" + b.act(), "Conn.mu is held although no Conn method is executing (step " + b.curStep() + ")"
 		}
 		if st.SenderLockHeld {
-			return prop + "/sender-lock-leaked/" + scenarioClass(b.scenario) + "/" + b.action, "sender lock is held although no Conn method is executing (step " + b.curStep() + ")"
+			return prop + "/sender-lock-leaked/" + scenarioClass(b.scenario) + "/" + b.act(), "sender lock is held although no Conn method is executing (step " + b.curStep() + ")"
 		}
 	}
 	if n, ok := b.ops.has("close:"); ok {
-		return prop + "/close-blocks/" + b.action, "Conn.Close never returns (" + n + ")"
+		return prop + "/close-blocks/" + b.act(), "Conn.Close never returns (" + n + ")"
 	}
 	if _, ok := b.ops.has("conn-done"); ok {
-		return prop + "/done-never-closes/" + b.action, "Conn.Done never closes"
+		return prop + "/done-never-closes/" + b.act(), "Conn.Done never closes"
 	}
 	if n, ok := b.ops.has("peer-wait:probe"); ok {
-		return "C08/wedged/" + b.action + "/" + rep.Signature, "connection neither answers a Bootstrap probe nor shuts down (" + n + "); parked: " + rep.Signature
+		return "C08/wedged/" + b.act() + "/" + rep.Signature, "connection neither answers a Bootstrap probe nor shuts down (" + n + "); parked: " + rep.Signature
 	}
 	if n, ok := b.ops.has("call:"); ok {
 		if prop == "C08" {
-			return "C08/caller-hangs/" + b.action, "local call never resolves: " + n
+			return "C08/caller-hangs/" + b.act(), "local call never resolves: " + n
 		}
-		return "C09/op-hangs/" + strings.TrimPrefix(n, "call:") + "/" + b.action, "local call never completes: " + n
+		return "C09/op-hangs/" + strings.TrimPrefix(n, "call:") + "/" + b.act(), "local call never completes: " + n
 	}
 	for _, p := range []string{"bootstrap", "resolve", "release:"} {
 		if n, ok := b.ops.has(p); ok {
-			return prop + "/op-hangs/" + n + "/" + b.action, "local operation never completes: " + n
+			return prop + "/op-hangs/" + n + "/" + b.act(), "local operation never completes: " + n
 		}
 	}
 	return "deadlock/" + rep.Signature, what
